@@ -10,6 +10,7 @@ import Model.Wire
 import Model.Hop
 import Model.Pool
 import Model.Parse
+import Model.Macat
 import Generated.Facts
 import Driver.Machines
 open Model
@@ -33,6 +34,32 @@ def poolParams : Pool.Params :=
   { classes := Generated.poolClasses, pick := Generated.poolPick, free := Generated.poolFree,
     fallback := Generated.poolFallbackSize, bodyLen := Generated.newMsgBodyLen,
     bodyCap := Generated.newMsgBodyCap, bsize := Generated.newMsgBsize }
+
+def macatParams : Macat.Params :=
+  { escapes := Generated.macatEscapes,
+    hexPrefix := if Generated.macatHexFormat == "\\x%02x" then [0x5c, 0x78] else [],
+    bin8 := match Generated.macatBins.getD 0 (0, .ff) with | (t, g) => (t.toNat, g),
+    bin16 := match Generated.macatBins.getD 1 (0, .ff) with | (t, g) => (t.toNat, g),
+    bin32 := (Generated.macatBins.getD 2 (0, .ff)).1.toNat }
+
+def macatFmt (fmt : String) (body : Bytes) : Option Bytes :=
+  match fmt with
+  | "raw" => some (Macat.fmtRaw body)
+  | "ascii" => some (Macat.fmtAscii body)
+  | "quoted" => some (Macat.fmtQuoted macatParams body)
+  | "msgpack" => some (Macat.fmtMsgpack macatParams body)
+  | "no" => some []
+  | _ => none
+
+/-- decode what the implementation printed with the decoders the theorems are about -/
+def macatDecode (fmt : String) (out : Bytes) : Option Bytes :=
+  match fmt with
+  | "raw" => some out
+  | "quoted" => if out.getLast? == some 0x0a then Macat.unquote out.dropLast else none
+  | "msgpack" => match Macat.msgpackDecode out with
+    | some (p, []) => some p
+    | _ => none
+  | _ => none
 
 /-- stateless tags: expected output and the model branch taken -/
 def evalStateless (tag : String) (a : List String) : Option (String × String) :=
@@ -67,6 +94,16 @@ def evalStateless (tag : String) (a : List String) : Option (String × String) :
   | "parse.hdr4", [_, b] => let r := Parse.recv .hdr4 0 (hexArg b); some (fmtOpt r, if r.isSome then "deliver" else "drop")
   | "parse.bus", [pid, b] => let r := Parse.recv .bus (natArg pid) (hexArg b); some (fmtOpt r, "deliver")
   | "parse.sink", [_, b] => let r := Parse.recv .sink 0 (hexArg b); some (fmtOpt r, "drop")
+  | "mc.fmt", [fmt, b] =>
+    match macatFmt fmt (hexArg b) with
+    | some o => some (toHexD o, fmt)
+    | none => none
+  | "mc.rt", [fmt, b, o] =>
+    some (if macatDecode fmt (hexArg o) == some (hexArg b) then "ok" else "bad", fmt ++ "-decode")
+  | "mc.dur", [n] =>
+    match n.toInt? with
+    | some k => some (toString (Macat.bareSeconds k), "seconds")
+    | none => none
   | "pool.new", [sz] =>
     -- observed: "<len> <hlen> <cap>"; the model gives the admissible capacities (checkPool)
     if sz.isEmpty then none else none
